@@ -113,8 +113,9 @@ def table(meta=None):
 
 
 # ------------------------------------------------------------------ argument domains
-ZVALS = [0, 1, -1, 2, M, -M, B, -B, B + 1, B * B - 1, -(B * B - 1), H << 64, -(H << 64) - 1, (1 << 127) + 1, 3 * M, 6, -12, (B ** 3) - 1, 1 << 130]
-ZSMALL = [0, 1, -1, 2, M, -B, B * B - 1, (1 << 127) + 1, 6]
+ZVALS = [0, 1, -1, 2, M, -M, B, -B, B + 1, B * B - 1, -(B * B - 1), H << 64, -(H << 64) - 1, (1 << 127) + 1, 3 * M, 6, -12, (B ** 3) - 1, 1 << 130,
+         B ** 40 - 1, -(B ** 33 + B ** 7 + 1), (H << (64 * 30)) | 5, int('9e3779b97f4a7c15' * 36, 16)]
+ZSMALL = [0, 1, -1, 2, M, -B, B * B - 1, (1 << 127) + 1, 6, -(B ** 33 + B ** 7 + 1)]
 QVALS = [Fraction(0), Fraction(1), Fraction(-1), Fraction(1, 2), Fraction(-3, 4), Fraction(M, 3), Fraction(-B, B - 1), Fraction(B * B - 1, B + 2), Fraction(7, B * B + 1),
          Fraction(-(1 << 190), 7), Fraction(1 << 64, 3), Fraction(5, 1 << 128)]
 FVALS = [Fraction(0), Fraction(1), Fraction(-1), Fraction(3, 2), Fraction(-5, 8), Fraction(M), Fraction(B), Fraction(-(B * B - 1)), Fraction(1, 1 << 64), Fraction((1 << 128) + 1, 1 << 64),
